@@ -598,7 +598,9 @@ def judge(chk, c, evs):
             r, ang = sec['r'], sec['angle']
             s_ = 1.0 if ang > 0 else -1.0
             if tan is None:
-                chk.harness_error('%s: turn without a tracked tangent' % c.id)
+                # the previous section has no direction (a zero-length segment, an interpolation): the API does not say where a turn starts
+                # from then - the rest of this curve is not judged
+                chk.cov('curves_cut_at_turn_without_direction')
                 return
             # ideal circle from the tracked end tangent; the start tangent may differ by one sampling step of the previous section
             pts = [cur] + new
